@@ -48,7 +48,7 @@ type c06Case struct {
 	Key    string       `json:"key"`
 	Frags  [][][]c06Nal `json:"frags"` // fragment -> sample -> NAL units
 	Extras int          `json:"extras"`
-	Dev    string       `json:"dev,omitempty"` // C15 deviation name(s, joined by " + "): parameter sets and slice header of every VCL unit are built with them
+	Dev    string       `json:"dev,omitempty"`  // C15 deviation name(s, joined by " + "): parameter sets and slice header of every VCL unit are built with them
 	Lead   int          `json:"lead,omitempty"` // first byte of the slice data after each slice header (0: pseudo-random fill)
 }
 
